@@ -1,4 +1,6 @@
-pub mod core;
-pub mod sess;
-pub mod props;
+pub mod ast;
 pub mod child;
+pub mod core;
+pub mod model;
+pub mod props;
+pub mod sess;
